@@ -41,6 +41,8 @@ def gen(rng, tier):
         for _ in range(n_match):
             yield {"kind": "match", "sub": rng.randrange(1 << 30)}
         return
+    yield {"kind": "template", "names": ["x", "z", "y"], "site": 1}
+    yield {"kind": "template", "names": ["z", "x"], "site": 0}
     # interleave so that a budget cut keeps every kind
     plan = ["trace"] * n_trace + ["match"] * n_match + ["simrun"] * n_sim
     rng.shuffle(plan)
@@ -376,8 +378,49 @@ def run(inp):
     return res
 
 
+def run_template(inp):
+    """the operator of a scheduled jump is the one named in *this* model's specification: one dict reused (re-labelled) for several
+    NoiseModels must give each model its own operator, and the caller's dict is left as it was"""
+    import copy as _copy
+
+    import numpy as _np
+
+    from mqt.yaqs.core.data_structures.networks import MPS
+    from mqt.yaqs.core.data_structures.noise_model import NoiseModel
+    from mqt.yaqs.core.data_structures.simulation_parameters import AnalogSimParams, Observable
+    from mqt.yaqs.core.libraries.gate_library import X, Y, Z
+    from mqt.yaqs.core.methods.scheduled_jumps import apply_scheduled_jumps
+
+    names = inp.get("names", ["x", "z", "y"])
+    site = int(inp.get("site", 1))
+    template = {"time": 0.2, "sites": [site], "name": names[0]}
+    probs = []
+    sp = AnalogSimParams([Observable(Z(), 0)], elapsed_time=0.4, dt=0.1, show_progress=False)
+    want = {"x": (1.0, 0.0, 0.0), "y": (0.0, 1.0, 0.0), "z": (0.0, 0.0, 1.0)}     # <X>,<Y>,<Z> signature of P|psi> for psi below
+    for nm_name in names:
+        template["name"] = nm_name
+        before = _copy.deepcopy({k: v for k, v in template.items()})
+        model = NoiseModel(scheduled_jumps=[template])
+        if set(template) != set(before) or any(not _np.array_equal(template[k], before[k]) for k in before):
+            probs.append(f"NoiseModel(scheduled_jumps=[d]) changed the caller's dict d: keys {sorted(before)} -> {sorted(template)}")
+        # |psi> = generic single-qubit state on `site`; applying P and measuring <P> gives <psi|P|psi> again, other Paulis flip sign
+        st = MPS(3, state="zeros")
+        th, ph = 0.7, 0.4
+        st.tensors[site] = _np.array([_np.cos(th / 2), _np.exp(1j * ph) * _np.sin(th / 2)], dtype=complex).reshape(2, 1, 1)
+        ref = {p: float(MPS.expect(_copy.deepcopy(st), Observable(g(), site))) for p, g in (("x", X), ("y", Y), ("z", Z))}
+        out_state = apply_scheduled_jumps(_copy.deepcopy(st), model, 0.2, sp)
+        got = {p: float(out_state.expect(Observable(g(), site))) for p, g in (("x", X), ("y", Y), ("z", Z))}
+        exp = {p: (ref[p] if p == nm_name else -ref[p]) for p in ref}
+        if max(abs(got[p] - exp[p]) for p in ref) > 1e-9:
+            probs.append(f"model built for scheduled jump '{nm_name}' applied a different operator: Pauli expectations {got}, expected {exp}")
+    return {"req": None, "impl": None, "kind": "template-reuse", "oracle": {"ok": not probs, "detail": "; ".join(probs[:2]) or f"names {names}: each model applied its own operator"},
+            "sig": f"template:{names}:{site}", "nontrivial": True}
+
+
 def _run(inp):
     k = inp["kind"]
+    if k == "template":
+        return run_template(inp)
     if k == "trace":
         return run_trace(inp)
     if k == "match":
